@@ -142,10 +142,27 @@ def one_history(arg):
                 cap = margin * hdr["lev"] / (pu / PU) * rng.choice([0.05, 0.1, 0.2, 0.3])
                 qu = int(min(3000, max(1, cap * QU))) if not probe else 3000
                 qu = rng.randint(max(1, qu // 3), max(1, qu))
-                if ro:
+                wal = s.exchange.assets[s.exchange.settlement_currency]
+                y = rng.random()
+                if acts and y < 0.12:
+                    # look-alike: same (side, qty, price) as a resting order with the other reduce-only flag where legal
+                    o = s.orders[rng.choice(acts) - 1]
+                    side, qu, pu = o.side, sc(abs(o.qty), QU), sc(o.price, PU)
+                    typ = rng.choice(["LMT", "STP"])
+                    ro = (not o.reduce_only) and pq != 0 and ((pq > 0) == (side == "sell"))
+                    probe = True                 # (sizes are what they are)
+                elif margin > wal > 0 and y < 0.45 and typ != "MKT":
+                    # available margin above the wallet balance (unrealised profit): size between the two (accept) or
+                    # a little above the margin (reject)
+                    over = rng.random() < 0.06
+                    need = rng.uniform(margin * 1.02, margin * 1.3) if over else rng.uniform(wal, margin)
+                    qw = int(need * hdr["lev"] / (pu / PU) * QU)
+                    if 1 <= qw <= 3000:
+                        qu, ro, probe = qw, False, True
+                if ro and not (acts and y < 0.12):
                     qu = rng.choice([abs(pq), max(1, abs(pq) // 2), min(3000, abs(pq) + rng.randint(1, 500)), qu])
                     qu = max(1, min(3000, qu))
-                else:
+                elif not ro:
                     resting = sum(sc(abs(o.qty), QU) for o in s.orders if o.is_active and o.symbol == SYMS[sy]
                                   and not o.reduce_only and o.side == side)
                     signed = pq if side == "buy" else -pq
@@ -229,6 +246,10 @@ def _hdr(rng, nsym, exact=False):
         return {"syms": syms, "lev": rng.choice([1, 2, 4, 8, 16]), "fee_u": rng.choice([0, 40, 75, 100]),
                 "start": rng.choice([50, 100]) * MU, "mode": rng.choice(["cross", "isolated"]),
                 "p0": {s: rng.randint(40, 400) * 25 for s in syms}}
+    if rng.random() < 0.3:       # windfall family: unrealised profit easily exceeds the small wallet
+        return {"syms": syms, "lev": rng.choice([5, 10, 20]), "fee_u": rng.choice([0, 40, 75, 100]),
+                "start": rng.choice([20, 50]) * MU, "mode": rng.choice(["cross", "isolated"]),
+                "p0": {s: rng.randint(2000, 40000) for s in syms}}
     return {"syms": syms, "lev": rng.choice([1, 2, 3, 5, 10, 20, 50, 100, 125]), "fee_u": rng.choice([0, 40, 75, 100]),
             "start": rng.choice([100, 1000, 5000]) * MU, "mode": rng.choice(["cross", "isolated"]),
             "p0": {s: rng.randint(2000, 40000) for s in syms}}
